@@ -22,7 +22,7 @@ RULE = ("Every Element/Isotope object exported by cherab.core.atomic.elements is
 ASSUMPTIONS = ["periodic table embedded in vf/oracles/periodic_table.py (118 entries) is correct",
                "the module namespace of cherab.core.atomic.elements is the set of species 'the package defines'"]
 
-REQUIRED_LABELS = ["registry:lookup-after-construction", "lines:equal:other-numeric-spelling"]
+REQUIRED_LABELS = ["registry:cross-registry:miss-first", "registry:lookup-after-construction", "lines:equal:other-numeric-spelling"]
 
 ELEMENTS = sorted([(n, getattr(E, n)) for n in dir(E) if type(getattr(E, n)) is Element], key=lambda x: x[0])
 ISOTOPES = sorted([(n, getattr(E, n)) for n in dir(E) if type(getattr(E, n)) is Isotope], key=lambda x: x[0])
@@ -92,6 +92,14 @@ def run_lookup(case, ctx):
         else:
             idents = [e]
         for ident in idents:
+            # a failed look-up of the same key in the OTHER registry first (an element identifier is usually not an isotope's):
+            # whatever it does - it raises ValueError on the pinned tree - must not change what the right registry answers
+            if kind != "identity":
+                try:
+                    lookup_isotope(ident)
+                    ctx.label("cross-registry:found")
+                except ValueError:
+                    ctx.label("cross-registry:miss-first")
             _counts["lookups"] += 1
             with ctx.cut("lookup_element"):
                 got = lookup_element(ident)
@@ -132,6 +140,12 @@ def run_lookup(case, ctx):
             ctx.check(i.mass_number >= i.atomic_number, "isotope", "%s A=%d < Z=%d" % (i.name, i.mass_number, i.atomic_number))
             ctx.check(abs(i.atomic_weight - i.mass_number) <= 0.1, "isotope", "%s weight %r vs A=%d" % (i.name, i.atomic_weight, i.mass_number))
         for a, k in calls:
+            if kind in ("name", "symbol") and isinstance(a[0], str):
+                try:
+                    lookup_element(a[0])
+                    ctx.label("cross-registry:found")
+                except ValueError:
+                    ctx.label("cross-registry:miss-first")
             _counts["lookups"] += 1
             with ctx.cut("lookup_isotope"):
                 got = lookup_isotope(*a, **k)
